@@ -11,6 +11,7 @@ commutative ring of real scalars, `V` any `K`-module of phasor values, e.g. ℂ 
   C17_scale_continuous / _pulse   scale · Σw = 2 (continuous), scale = stride (pulse)
   C17_constant_signal             continuous mode reproduces 2·c for a constant history at zero frequency
   C17_thin_spec / C17_thin_le_one stride thinning keeps exactly the active steps whose rank is a multiple of the stride
+  C17_thin_count                  number of recorded steps after thinning = ⌈active / stride⌉
   C17_closed_face_fold            (after the fix) a closed-surface face accumulates the same windowed DFT
   asFound_closed_surface_ignores_window   refutation witness for the pinned tree
   C17_reMulConj / C17_poynting_components  the stored real Poynting vector is Re(E × conj H), component by component
@@ -190,6 +191,64 @@ theorem C17_thin_sub (s : Nat) (l : List Bool) (t : Nat) (ht : t < l.length) (h 
   · rw [C17_thin_spec s (by omega) l t ht] at h
     simp only [Option.some.injEq, Bool.and_eq_true] at h
     exact h.1
+
+/-- number of multiples of `s` in `[c, c+m)` -/
+def multIn (s c m : Nat) : Nat := (c + m + s - 1) / s - (c + s - 1) / s
+
+private theorem ceil_step (s c : Nat) (hs : 0 < s) :
+    (c + 1 + s - 1) / s = (c + s - 1) / s + (if c % s = 0 then 1 else 0) := by
+  obtain ⟨q, r, hc, hr⟩ : ∃ q r, c = s * q + r ∧ r < s := ⟨c / s, c % s, (Nat.div_add_mod c s).symm, Nat.mod_lt _ hs⟩
+  have hmod : c % s = r := by rw [hc, Nat.add_comm, Nat.add_mul_mod_self_left, Nat.mod_eq_of_lt hr]
+  rw [hmod]
+  by_cases h0 : r = 0
+  · subst h0
+    have e1 : c + 1 + s - 1 = s * (q + 1) + 0 := by rw [hc, Nat.mul_add]; omega
+    have e2 : c + s - 1 = s * q + (s - 1) := by rw [hc]; omega
+    rw [e1, e2, Nat.add_comm (s * (q+1)), Nat.add_mul_div_left _ _ hs, Nat.add_comm (s * q),
+      Nat.add_mul_div_left _ _ hs, Nat.div_eq_of_lt (by omega), Nat.div_eq_of_lt (by omega)]
+    simp
+  · have e1 : c + 1 + s - 1 = s * (q + 1) + r := by rw [hc, Nat.mul_add]; omega
+    have e2 : c + s - 1 = s * (q + 1) + (r - 1) := by rw [hc, Nat.mul_add]; omega
+    rw [e1, e2, Nat.add_comm (s * (q+1)), Nat.add_mul_div_left _ _ hs, Nat.add_comm (s * (q+1)),
+      Nat.add_mul_div_left _ _ hs, Nat.div_eq_of_lt hr, Nat.div_eq_of_lt (by omega)]
+    simp [h0]
+
+private theorem ceil_mono (s a b : Nat) (h : a ≤ b) : (a + s - 1) / s ≤ (b + s - 1) / s :=
+  Nat.div_le_div_right (by omega)
+
+theorem thinFrom_count (s : Nat) (hs : 0 < s) (c : Nat) (l : List Bool) :
+    C14.numOn (thinFrom s c l) = multIn s c (C14.numOn l) := by
+  induction l generalizing c with
+  | nil => simp [thinFrom, C14.numOn, multIn]
+  | cons b l ih =>
+    cases b
+    · simpa [thinFrom, C14.numOn] using ih c
+    · have h1 : C14.numOn (true :: l) = C14.numOn l + 1 := by simp [C14.numOn]
+      have h2 : C14.numOn (thinFrom s c (true :: l))
+          = (if c % s = 0 then 1 else 0) + C14.numOn (thinFrom s (c + 1) l) := by
+        by_cases hc : c % s = 0 <;> simp [thinFrom, C14.numOn, hc]
+        omega
+      rw [h2, ih (c + 1), h1]
+      unfold multIn
+      have hst := ceil_step s c hs
+      have hm := ceil_mono s (c + 1) (c + 1 + C14.numOn l) (by omega)
+      have e : c + (C14.numOn l + 1) + s - 1 = c + 1 + C14.numOn l + s - 1 := by omega
+      rw [e]
+      omega
+
+/-- C17: the number of recorded steps after stride thinning is ⌈(number of active steps) / stride⌉. -/
+theorem C17_thin_count (s : Nat) (hs : 1 ≤ s) (l : List Bool) :
+    C14.numOn (thin s l) = (C14.numOn l + s - 1) / s := by
+  unfold thin
+  by_cases h1 : s ≤ 1
+  · have : s = 1 := by omega
+    subst this
+    simp
+  · rw [if_neg h1, thinFrom_count s (by omega) 0 l]
+    unfold multIn
+    have : (0 + s - 1) / s = 0 := Nat.div_eq_of_lt (by omega)
+    rw [this]; simp
+
 
 /-! ### the closed-surface detector -/
 section closed
